@@ -4,7 +4,7 @@
 use crate::drive::*;
 use crate::gosem::GoVerdict;
 use crate::oracle::*;
-use crate::ug::ast::Program;
+use crate::ug::ast::{Item, Package, Program};
 use crate::ug::{eval, print};
 use serde_json::{Value, json};
 
@@ -24,6 +24,8 @@ pub struct DiffOpts {
     pub fuel: u64,
     /// applied to both outputs before they are compared (e.g. JSON canonicalisation)
     pub normalise: Option<fn(&[u8]) -> Vec<u8>>,
+    /// struct / enum definitions of these names are written to a second file of the same package
+    pub sibling_file_types: &'static [&'static str],
 }
 
 impl Default for DiffOpts {
@@ -36,6 +38,7 @@ impl Default for DiffOpts {
             props_ir: &["C03"],
             fuel: FUEL,
             normalise: None,
+            sibling_file_types: &[],
         }
     }
 }
@@ -96,7 +99,24 @@ pub struct DiffResult {
 
 /// The whole differential pipeline for one µgoml program.
 pub fn differential(prog: &Program, site: &str, family: &str, case: &Value, ctx: &mut Ctx, opts: &DiffOpts, rep: &mut Report) -> Option<DiffResult> {
-    let text = print::print_main(prog);
+    let text = if opts.sibling_file_types.is_empty() {
+        print::print_main(prog)
+    } else {
+        // the same package in two files: the named types in `types.gom`, everything else in main.gom
+        let in_sibling = |it: &Item| match it {
+            Item::Struct(d) => opts.sibling_file_types.contains(&d.name.as_str()),
+            Item::Enum(d) => opts.sibling_file_types.contains(&d.name.as_str()),
+            _ => false,
+        };
+        let main_pkg = &prog.packages[0];
+        let (sib, rest): (Vec<Item>, Vec<Item>) = main_pkg.items.iter().cloned().partition(|it| in_sibling(it));
+        let pr = print::Printer::new(&prog.names);
+        format!(
+            "package Main\n\n{}//// FILE types.gom\npackage Main\n\n{}",
+            pr.package(&Package { name: None, imports: main_pkg.imports.clone(), items: rest }),
+            pr.package(&Package { name: None, imports: vec![], items: sib })
+        )
+    };
     let reference = eval::run_program(prog, opts.fuel);
     let ref_obs = obs_of_ref(&reference);
     let replay_base = |extra: Value| -> Value {
@@ -115,8 +135,8 @@ pub fn differential(prog: &Program, site: &str, family: &str, case: &Value, ctx:
         _ => {}
     }
     rep.tag(format!("ref-end:{}", end_tag(&ref_obs.end)));
-    let path = ctx.scratch.single_path();
-    let comp = match compile_at(&path, &text) {
+    let (path, main_text) = materialize_text(ctx, &text);
+    let comp = match compile_at(&path, &main_text) {
         CompileOutcome::Ok(c) => c,
         CompileOutcome::Panic(m) => {
             rep.tag("compile:panic");
